@@ -4,6 +4,14 @@ import json, os
 HERE = os.path.dirname(os.path.dirname(os.path.abspath(__file__)))
 
 CHECKS = {
+ 'C12': dict(level='fault_enumeration', ref='3/C12',
+   technique='seeded operation histories over the lock state machine with exhaustive raise/no-raise enumeration of the fault sites (unlock bodies, hooks) per history; executable model of lock flag + store checked after every operation',
+   text='For each sampled history (finalize / nested unlock_config / bind / parse / register / clear / hooks of 9 kinds / configs that finalize must reject) all 2^k assignments of injected exceptions to the k fault sites are executed when k<=4 (16 sampled otherwise); the model of the flag and the store is compared after every operation and rejected operations must leave a bit-identical store. Enumeration is exhaustive per history, histories are sampled.',
+   note='Single caller thread; store snapshots read gin.config._CONFIG/_CONFIG_PROVENANCE when present (config_str otherwise); finalize called under an active scope is not judged for macro validation (property silent).'),
+ 'C16': dict(level='fault_enumeration', ref='3/C16',
+   technique='crash-point enumeration: every statement position x every fault kind injected into generated include trees served by a simulated file system; prefix-only twin world as oracle; storage faults (read error at every readline index, open failure) under a relaxed some-prefix oracle',
+   text='For each sampled include tree (layouts, blocks, macros, imports, nested includes) every (unit position, fault kind) pair of 20 kinds is executed and compared with the store obtained from exactly the preceding units, plus scope / lock / parse-context restoration, error class, one location line per include level, SyntaxError.lineno, provenance comments and follow-up-parse equivalence. Exhaustive per tree over the fault grid; trees are sampled.',
+   note='CPython 3.12 tokenizer only; recorded imports are not part of the compared state (property ambiguous there, DESIGN 7 #11); block = one syntactic unit (granularity rule in DESIGN 3/C16).'),
  'C09': dict(level='exploration', ref='3/C09',
    technique='deterministic thread-schedule simulation (baton-passed real threads, pre-emption at every gin source line) + injected exceptions on every scope exit path, per-thread model stack as oracle',
    text='Seeded search over nested scope-block programs (valid/invalid entries, normal/exceptional exits, re-entrant probe bodies, scoped references and get_configurable) run by 1-4 simulated threads under seeded schedules; each thread\'s view is compared with its own model stack at every observation. Evidence over the sampled histories x schedules, not proof.',
